@@ -60,7 +60,7 @@ def gen_cases(rng, tier):
         for _t in range(1, T):
             extra.append([extra[-1][k] + rng.randint(-200, 200) for k in range(3)])
         cases.append({'empty_other': rng.choice([None, None, None, 'list', 'tuple', 'set']),
-                      'species': species, 'ref': sorted(ref), 'mode': mode, 'coll': rng.choice(['str', 'list', 'set']),
+                      'species': species, 'ref': sorted(ref), 'mode': mode, 'coll': rng.choice(['str', 'list', 'set', 'frozenset', 'tuple', 'keys']),
                       'objs': rng.choice(['Element', 'Species']), 'coords': coords, 'extra': extra})
     return cases
 
@@ -69,7 +69,7 @@ def _spec_arg(names, coll):
     names = list(names)
     if coll == 'str' and len(names) == 1:
         return names[0]
-    return set(names) if coll == 'set' else names
+    return {'set': set, 'frozenset': frozenset, 'tuple': tuple, 'keys': (lambda x: dict.fromkeys(x).keys()), 'array': (lambda x: np.array(x))}.get(coll, list)(names)
 
 
 def _kw(case, mode=None):
